@@ -2,7 +2,7 @@
 import looplib as L
 from vlib import Failure, finish, hexs
 
-COQ_FILES = L.LOOP_COQ_FILES
+COQ_FILES = L.LOOP_COQ_FILES + L.REFINE_COQ_FILES
 
 
 def corpus():
@@ -43,6 +43,11 @@ def gen(ctx):
         labels, info, nreq = L.gen_session(rng, rng.choice([8, 20, 50, 90]), pauses=True)
         info["fault_free"] = True
         items.append((L.Sched(labels=labels + L.flush(nreq), note="random session"), info))
+    # sessions inside the fragment of the refinement theorems (c01_exec_own_replies)
+    for _ in range(40 if ctx.tier == "quick" else 800):
+        labels, info, nreq = L.gen_fragment_session(rng, rng.choice([8, 20, 50, 90]), tricky=False)
+        info["fault_free"] = True
+        items.append((L.Sched(labels=labels + L.flush(nreq), note="fragment session"), info))
     return items
 
 
@@ -76,7 +81,8 @@ def run(ctx, only=None):
     if only is not None:
         for r in results:
             print("labels:", " ".join(r["sched"].labels)[:1500], "\nops   :", " ".join(r["ops"])[:1500], "\nimpl  :", r["impl_raw"][:2500], "\nmodel :", " ".join(r["model_segs"])[:2500])
-    dist = {"schedules": len(scheds), "requests": sum(len(i["requests"]) for _, i in items if i), "resolved": resolved,
+    inside, why = L.fragment_membership(ctx, scheds)
+    dist = {"in_refinement_fragment": inside, "outside_fragment_first_label_kind": why, "schedules": len(scheds), "requests": sum(len(i["requests"]) for _, i in items if i), "resolved": resolved,
             "cancelled": sum(len(i["cancelled"]) for _, i in items if i), "notifications": sum(len(i["notified"]) for _, i in items if i)}
     return finish(
         ctx, evaluations=len(scheds) + nties, distinct_nontrivial=nontrivial,
